@@ -77,6 +77,20 @@ CLAIMED["C13"] = {
     "design": "5 C13",
 }
 
+CLAIMED["C10"] = {
+    "text": "Exceptions.tla states the property as a reference semantics of try/catch/finally nests (object-level clause matching over the "
+            "registered exception hierarchy, first match wins, finally exactly once, nothing after the throw point) next to a "
+            "transcription of Try_AST_Node (C++ catch arms fixing the static type, clause loop, finally placement); TLC checks that the "
+            "transcription refines the reference on all 15,870 programs of the family and refutes each of the three pinned behaviours; the "
+            "same programs with the reference's marker trace and escaping kind are replayed into the real engine with the throw site "
+            "rotated over seven frame kinds (direct, function, lambda, method, bind, for_each callback, attribute-held function).",
+    "note": "Known finding (known_findings.json): non-std C++ exception types are invisible to script clauses. Guarded clauses and "
+            "exception_specification handlers are outside the family; thrown kinds: int, string, runtime_error, out_of_range, logic_error, "
+            "bad_cast, eval_error, a non-std struct.",
+    "technique": "TLA+ refinement check (TLC) of the transcribed try/catch/finally machine against the reference + replay of TLC-enumerated nests",
+    "design": "5 C10",
+}
+
 PENDING_REASON = "check not built yet in this session; planned (see DESIGN.md section 8)"
 
 ALL = [f"C{i:02d}" for i in range(1, 21)]
